@@ -229,3 +229,18 @@ V('C09-silent-rename', 'C09', D, "        total_bounds = geometry.total_bounds\n
 V('C09-int32-distances', 'C09', D, "            lambda s: s.hilbert_distance(total_bounds=total_bounds, p=p))", "            lambda s: s.hilbert_distance(total_bounds=total_bounds, p=p).astype(np.int32))", rule='C09.a')
 V('C09-silent-int64-cast', 'C09', D, "            lambda s: s.hilbert_distance(total_bounds=total_bounds, p=p))", "            lambda s: s.hilbert_distance(total_bounds=total_bounds, p=p).astype(np.int64))", expect='silent')
 V('C09-getitem-propagates-on-rows', 'C09', D, "        elif isinstance(key, (np.ndarray, list)):", "        elif isinstance(result, DaskGeoDataFrame):", rule='C09.a')
+V('C05-reintroduce-D18', 'C05', SJ, "        if np.isnan(shape_bounds).any():\n            continue\n", "", rule='C05.f')
+V('C20-reintroduce-D20', 'C20', D, "            filesystem=filesystem,\n            geometry=self.geometry.name,\n", "            filesystem=filesystem,\n", rule='C20.e')
+
+# ------------------------------------------------------------------------------------------------ C11
+PG = 'spatialpandas/geometry/polygon.py'
+V('C11-dtype-wrong-array', 'C11', 'spatialpandas/geometry/ring.py', "    def construct_array_type(cls, *args):\n        return RingArray", "    def construct_array_type(cls, *args):\n        return LineArray", rule='C11.a')
+V('C11-array-wrong-dtype-class', 'C11', 'spatialpandas/geometry/multiline.py', "    def _dtype_class(self):\n        return MultiLineDtype", "    def _dtype_class(self):\n        return GeometryDtype", rule='C11.a')
+V('C11-duplicate-geometry-name', 'C11', 'spatialpandas/geometry/ring.py', "    _geometry_name = 'ring'", "    _geometry_name = 'line'", rule='C11.a')
+V('C11-example-ignores-dtype', 'C11', PG, "            [[1.0, 1.0, 2.0, 1.0, 2.0, 2.0, 1.0, 2.0, 1.0, 1.0]]\n        ], dtype=dtype\n    )", "            [[1.0, 1.0, 2.0, 1.0, 2.0, 2.0, 1.0, 2.0, 1.0, 1.0]]\n        ]\n    )", rule='C11.a')
+V('C11-element-type-wrong', 'C11', 'spatialpandas/geometry/multipolygon.py', "    _element_type = MultiPolygon\n", "    _element_type = Polygon\n", rule='C11.a')
+V('C11-from-arrow-base-class', 'C11', BA, "        return self.construct_array_type()(data, dtype=self)", "        return GeometryArray(data, dtype=self)", rule='C11.b')
+V('C11-index-columns-not-prepended', 'C11', PQ, "        columns = extra_index_columns + list(columns)", "        columns = list(columns)", rule='C11.c')
+V('C11-index-column-twice', 'C11', PQ, "            if name is not None and name not in columns and name in all_columns:", "            if name is not None and name in all_columns:", rule='C11.c')
+V('C11-global-sort', ['C11'], PQ, "        dataset_pieces = sorted(fragments, key=lambda piece: natural_sort_key(piece.path))\n        pieces.extend(dataset_pieces)\n", "        pieces.extend(fragments)\n    pieces.sort(key=lambda piece: natural_sort_key(piece.path))\n", rule='C11.d')
+V('C11-silent-rename-example-fn', 'C11', PG, "def _polygon_array_non_empty(dtype):", "def _polygon_array_non_empty(dtype):\n    # example array for Dask meta inference", expect='silent')
